@@ -124,7 +124,7 @@ func c33Gen(r *rand.Rand, tier string, i int) any {
 	if r.Intn(2) == 0 {
 		names := 24 + r.Intn(24)
 		if tier == "thorough" {
-			names = 100 + r.Intn(150)
+			names = 48 + r.Intn(49)
 		}
 		workers := []int{2, 2, 3, 4, 6, 8}[r.Intn(6)]
 		for j := 0; j < names; j++ {
